@@ -649,7 +649,11 @@ def probe_balance_pipeline():
         @functools.wraps(orig_reduce)
         def red(self, binop, init):
             _count("pipe_reduce")
-            emit({"ev": "pass_begin", "keys": [[int(a), int(b)] for a, b in self.keys]})
+            try:
+                keys = [[int(a), int(b)] for a, b in self.keys]
+            except Exception:       # generic pipelines may use any keys (the repo's own tests do)
+                keys = None
+            emit({"ev": "pass_begin", "keys": keys})
             try:
                 return orig_reduce(self, binop, init)
             finally:
